@@ -29,7 +29,7 @@ func checkC03() *CheckDef {
 	type bnd struct{ nA, nC, depth, budget, k, bin, muts int }
 	bounds := func(tier string) bnd {
 		if tier == "thorough" {
-			return bnd{nA: 11, nC: 7, depth: 3, budget: 5, k: 2, bin: 2, muts: 2}
+			return bnd{nA: 10, nC: 6, depth: 2, budget: 3, k: 1, bin: 1, muts: 1}
 		}
 		return bnd{nA: 7, nC: 5, depth: 2, budget: 2, k: 1, bin: 1, muts: 1}
 	}
@@ -67,7 +67,7 @@ func checkC03() *CheckDef {
 func checkC02() *CheckDef {
 	params := func(tier string) map[string]int {
 		if tier == "thorough" {
-			return map[string]int{"depth": 3, "budget": 6, "k": 2, "bin": 3}
+			return map[string]int{"depth": 3, "budget": 5, "k": 2, "bin": 2}
 		}
 		return map[string]int{"depth": 2, "budget": 4, "k": 2, "bin": 2}
 	}
@@ -93,7 +93,7 @@ func checkC12() *CheckDef {
 	type bnd struct{ l, n, lc, free int }
 	bounds := func(tier string) bnd {
 		if tier == "thorough" {
-			return bnd{l: 5, n: 12, lc: 3, free: 3}
+			return bnd{l: 4, n: 10, lc: 2, free: 2}
 		}
 		return bnd{l: 3, n: 8, lc: 2, free: 2}
 	}
@@ -152,7 +152,7 @@ func checkC13() *CheckDef {
 		out := base(tier)
 		ng := 4
 		if tier == "thorough" {
-			ng = 8
+			ng = 6
 		}
 		for api := 0; api <= 2; api++ {
 			for n := 0; n <= ng; n++ {
@@ -175,7 +175,7 @@ func checkC13() *CheckDef {
 	baseB := c.Bounds
 	c.Bounds = func(tier string) map[string]interface{} {
 		m := baseB(tier)
-		m["generated_deserializers"] = "FromWire(Decode(b)) and Decode(stream) (seekable / non-seekable) of every corpus type on arbitrary bytes (<= 4, thorough 8) and on reference encodings of valid values (concrete leaves) in which each length/count field in turn is an arbitrary int32, optionally with arbitrary element-type bytes in front of it"
+		m["generated_deserializers"] = "FromWire(Decode(b)) and Decode(stream) (seekable / non-seekable) of every corpus type on arbitrary bytes (<= 4, thorough 6) and on reference encodings of valid values (concrete leaves) in which each length/count field in turn is an arbitrary int32, optionally with arbitrary element-type bytes in front of it"
 		return genBounds(c, m)
 	}
 	c.Assume = genAssume()
@@ -186,7 +186,7 @@ func checkC13base() *CheckDef {
 	type bnd struct{ n, depth, budget, k, bin int }
 	bounds := func(tier string) bnd {
 		if tier == "thorough" {
-			return bnd{n: 11, depth: 3, budget: 4, k: 2, bin: 2}
+			return bnd{n: 10, depth: 2, budget: 3, k: 1, bin: 1}
 		}
 		return bnd{n: 8, depth: 2, budget: 2, k: 1, bin: 1}
 	}
@@ -270,7 +270,7 @@ func checkC14() *CheckDef {
 func checkC14base() *CheckDef {
 	params := func(tier string) map[string]int {
 		if tier == "thorough" {
-			return map[string]int{"depth": 2, "budget": 4, "budget2": 3, "k": 2, "bin": 2}
+			return map[string]int{"depth": 2, "budget": 3, "budget2": 2, "k": 2, "bin": 2}
 		}
 		return map[string]int{"depth": 2, "budget": 3, "budget2": 2, "k": 2, "bin": 1}
 	}
@@ -333,7 +333,7 @@ func checkC11() *CheckDef {
 	type bnd struct{ la, lb, lc, nd int }
 	bounds := func(tier string) bnd {
 		if tier == "thorough" {
-			return bnd{la: 8, lb: 7, lc: 6, nd: 3}
+			return bnd{la: 7, lb: 6, lc: 5, nd: 3}
 		}
 		return bnd{la: 6, lb: 5, lc: 4, nd: 2}
 	}
